@@ -33,6 +33,7 @@ type loopInfo struct {
 	entryState *State
 	idxPhi     *ssa.Phi // range-over-slice index phi (for $i)
 	rng        *RangeState
+	lenVal     ssa.Value // range-over-slice: the precomputed length compared against in the header
 	idxTerm    string // for virtual (Iterate) loops: the $i term
 	ownerKey   string // obligations are named after this function (maps.Iterate loops belong to the caller)
 	ownerFrame *Frame // names in the invariants are resolved in this frame
@@ -101,7 +102,8 @@ func (vc *VC) newFrame(fn *ssa.Function, parent *Frame) *Frame {
 func (fr *Frame) analyse() {
 	fn := fr.fn
 	type loopSite struct {
-		pos  token.Pos
+		blk  int // block index (SSA blocks are created in source order: outer before inner, earlier before later)
+		idx  int // instruction index inside the block
 		head *ssa.BasicBlock
 		call token.Pos
 	}
@@ -134,7 +136,7 @@ func (fr *Frame) analyse() {
 				fr.markMutated(in.Addr)
 			case *ssa.Call:
 				if isMapsIterate(in.Call.StaticCallee()) {
-					sites = append(sites, loopSite{pos: in.Pos(), call: in.Pos()})
+					sites = append(sites, loopSite{blk: b.Index, idx: instrIndex(b, in), call: in.Pos()})
 				}
 				if bi, ok := in.Call.Value.(*ssa.Builtin); ok && bi.Name() == "copy" {
 					fr.mutated[in.Call.Args[0]] = true
@@ -143,9 +145,14 @@ func (fr *Frame) analyse() {
 		}
 	}
 	for h := range fr.loops {
-		sites = append(sites, loopSite{pos: loopPos(h), head: h})
+		sites = append(sites, loopSite{blk: h.Index, idx: -1, head: h})
 	}
-	sort.Slice(sites, func(i, j int) bool { return sites[i].pos < sites[j].pos })
+	sort.Slice(sites, func(i, j int) bool {
+		if sites[i].blk != sites[j].blk {
+			return sites[i].blk < sites[j].blk
+		}
+		return sites[i].idx < sites[j].idx
+	})
 	for i, s := range sites {
 		if s.head != nil {
 			fr.loops[s.head].ordinal = i + 1
@@ -174,6 +181,15 @@ func (fr *Frame) markMutated(addr ssa.Value) {
 		}
 		return
 	}
+}
+
+func instrIndex(b *ssa.BasicBlock, in ssa.Instruction) int {
+	for i, x := range b.Instrs {
+		if x == in {
+			return i
+		}
+	}
+	return 0
 }
 
 // loopPos approximates the source position of a loop by the smallest position in its header.
@@ -492,6 +508,19 @@ func (fr *Frame) enterLoop(li *loopInfo, live []edgeIn, cond string, cur *State)
 			li.idxPhi = phi
 		}
 	}
+	if li.idxPhi != nil {
+		if iff, ok := b.Instrs[len(b.Instrs)-1].(*ssa.If); ok {
+			if cmp, ok := iff.Cond.(*ssa.BinOp); ok && cmp.Op == token.LSS {
+				if inc, ok := cmp.X.(*ssa.BinOp); ok && inc.Op == token.ADD && inc.X == li.idxPhi {
+					if _, defined := fr.env[cmp.Y]; defined {
+						li.lenVal = cmp.Y
+					} else if _, isConst := cmp.Y.(*ssa.Const); isConst {
+						li.lenVal = cmp.Y
+					}
+				}
+			}
+		}
+	}
 	li.entryState = cur.clone()
 	li.frame = fr
 	// detect map range in header: `next` instruction on a Range value
@@ -534,7 +563,7 @@ func (fr *Frame) enterLoop(li *loopInfo, live []edgeIn, cond string, cur *State)
 	}
 	// 4. assume invariants (automatic ones first)
 	if li.idxPhi != nil {
-		vc.fact(implies(cond, fmt.Sprintf("(>= %s (- 1))", fr.env[li.idxPhi].Term)))
+		vc.fact(implies(cond, fr.autoRangeInv(li)))
 	}
 	if li.rng != nil && li.rng.Visited != nil {
 		r := li.rng
@@ -543,6 +572,16 @@ func (fr *Frame) enterLoop(li *loopInfo, live []edgeIn, cond string, cur *State)
 		vc.fact(implies(cond, fmt.Sprintf("(forall ((?k %s)) (=> (select %s ?k) (and (not %s) %s)))", r.KeySort, vis, mapNil(ms, vc.term(cur, r.Map)), mapHas(ms, vc.term(cur, r.Map), "?k"))))
 	}
 	fr.assumeInvariants(li, cond, cur)
+}
+
+// autoRangeInv is the automatic invariant of a range-over-slice loop: -1 <= idx < len.
+func (fr *Frame) autoRangeInv(li *loopInfo) string {
+	idx := fr.env[li.idxPhi].Term
+	inv := fmt.Sprintf("(>= %s (- 1))", idx)
+	if li.lenVal != nil {
+		inv = and(inv, fmt.Sprintf("(< %s %s)", idx, fr.val(li.lenVal).Term))
+	}
+	return inv
 }
 
 func phiName(p *ssa.Phi) string {
@@ -577,7 +616,7 @@ func (fr *Frame) specEnvAt(st *State, li *loopInfo) *SpecEnv {
 func (fr *Frame) checkInvariants(li *loopInfo, cond string, st *State, kind string) {
 	vc := fr.vc
 	if li.idxPhi != nil && kind == "inv-init" {
-		vc.oblige(fr.loopOwner(li), fr.loopLabel(li)+":"+kind, "auto-range-index", fr.props, cond, fmt.Sprintf("(>= %s (- 1))", fr.env[li.idxPhi].Term))
+		vc.oblige(fr.loopOwner(li), fr.loopLabel(li)+":"+kind, "auto-range-index", fr.props, cond, fr.autoRangeInv(li))
 	}
 	if li.spec == nil {
 		return
@@ -589,7 +628,9 @@ func (fr *Frame) checkInvariants(li *loopInfo, cond string, st *State, kind stri
 		if label == "" {
 			label = fmt.Sprint(i + 1)
 		}
-		vc.oblige(fr.loopOwner(li), fr.loopLabel(li)+":"+kind, label, clauseProps(c, fr.props), cond, g)
+		if o := vc.oblige(fr.loopOwner(li), fr.loopLabel(li)+":"+kind, label, clauseProps(c, fr.props), cond, g); o != nil {
+			o.Group = c.Group
+		}
 	}
 }
 
@@ -600,7 +641,9 @@ func (fr *Frame) assumeInvariants(li *loopInfo, cond string, st *State) {
 	for _, c := range li.spec.Invariants {
 		env := fr.specEnvAt(st, li)
 		g := env.compileBool(c.Expr)
+		fr.vc.curGroup = c.Group
 		fr.vc.fact(implies(cond, g))
+		fr.vc.curGroup = ""
 	}
 }
 
@@ -644,7 +687,7 @@ func (fr *Frame) backEdge(from, h *ssa.BasicBlock, cond string, st *State) {
 		vc.curPos = fr.pos(p)
 	}
 	if li.idxPhi != nil {
-		vc.oblige(fr.loopOwner(li), fr.loopLabel(li)+":inv-preserved", "auto-range-index", fr.props, cond, fmt.Sprintf("(>= %s (- 1))", fr.env[li.idxPhi].Term))
+		vc.oblige(fr.loopOwner(li), fr.loopLabel(li)+":inv-preserved", "auto-range-index", fr.props, cond, fr.autoRangeInv(li))
 	}
 	fr.checkInvariants(li, cond, st, "inv-preserved")
 	for phi, v := range saved {
